@@ -3,7 +3,6 @@ package main
 import (
 	"bufio"
 	"bytes"
-	"context"
 	"crypto/sha256"
 	"encoding/binary"
 	"encoding/hex"
@@ -37,6 +36,7 @@ type Run struct {
 	Events   []world.Event
 	RawLog   []byte
 	WallMs   float64
+	CPUMs    float64
 	NoLog    bool
 	Progress []byte // rig-specific progress marker file (<log>.progress)
 }
@@ -160,7 +160,37 @@ func ConfigYAML(c scn.Config) string {
 	return b.String()
 }
 
-const watchdog = 30 * time.Second
+// The watchdog is a budget of CPU time, not of wall-clock time: a child that loops forever burns
+// CPU and is stopped after cpuBudget seconds of it, however loaded the machine is, while an honest
+// child that is merely starved of CPU by other processes is never mistaken for a hang. The
+// wall-clock backstop only catches a child that neither computes nor ends (the fake-clock runtime
+// reports "all goroutines are asleep" for that by itself, so it is not expected to fire).
+const (
+	cpuBudget     = 30 * time.Second
+	wallBackstop  = 5 * time.Minute
+	longCPUBudget = 40 * time.Minute
+	longBackstop  = 3 * time.Hour
+)
+
+// procCPU returns user+system CPU time consumed so far by process pid (from /proc/<pid>/stat).
+func procCPU(pid int) time.Duration {
+	b, err := os.ReadFile(fmt.Sprintf("/proc/%d/stat", pid))
+	if err != nil {
+		return 0
+	}
+	i := bytes.LastIndexByte(b, ')')
+	if i < 0 {
+		return 0
+	}
+	f := strings.Fields(string(b[i+1:]))
+	if len(f) < 13 {
+		return 0
+	}
+	var ut, st int64
+	fmt.Sscan(f[11], &ut)
+	fmt.Sscan(f[12], &st)
+	return time.Duration(ut+st) * (time.Second / 100) // USER_HZ is 100 on Linux
+}
 
 // RunBin executes a simulation binary on one scenario in worker directory w.
 func (e *Env) RunBin(bin string, worker int, s *scn.Scenario) *Run {
@@ -180,13 +210,11 @@ func (e *Env) RunBin(bin string, worker int, s *scn.Scenario) *Run {
 	logPath := filepath.Join(dir, "log.jsonl")
 	os.Remove(logPath)
 	os.Remove(logPath + ".progress")
-	wd := watchdog
+	budget, backstop := cpuBudget, wallBackstop
 	if long, _ := s.Rig["long"].(bool); long {
-		wd = 30 * time.Minute
+		budget, backstop = longCPUBudget, longBackstop
 	}
-	ctx, cancel := context.WithTimeout(context.Background(), wd)
-	defer cancel()
-	cmd := exec.CommandContext(ctx, bin, s.Args...)
+	cmd := exec.Command(bin, s.Args...)
 	cmd.Dir = dir
 	// GOMAXPROCS=1: with several Ps the faketime runtime can livelock under load (measured: 484 of
 	// 1500 identical runs spun until the watchdog with GOMAXPROCS=16, none with 1). The emulator is
@@ -199,11 +227,30 @@ func (e *Env) RunBin(bin string, worker int, s *scn.Scenario) *Run {
 	var so, se bytes.Buffer
 	cmd.Stdout, cmd.Stderr = &so, &se
 	t0 := time.Now()
-	err = cmd.Run()
-	r.WallMs = float64(time.Since(t0).Microseconds()) / 1000
-	if ctx.Err() == context.DeadlineExceeded {
-		r.TimedOut = true
+	err = cmd.Start()
+	if err == nil {
+		done := make(chan error, 1)
+		go func() { done <- cmd.Wait() }()
+		tick := time.NewTimer(time.Second)
+	wait:
+		for {
+			select {
+			case err = <-done:
+				break wait
+			case <-tick.C:
+				if cpu := procCPU(cmd.Process.Pid); cpu > budget || time.Since(t0) > backstop {
+					r.TimedOut = true
+					r.CPUMs = float64(cpu.Milliseconds())
+					cmd.Process.Kill()
+					err = <-done
+					break wait
+				}
+				tick.Reset(250 * time.Millisecond)
+			}
+		}
+		tick.Stop()
 	}
+	r.WallMs = float64(time.Since(t0).Microseconds()) / 1000
 	if err != nil {
 		if ee, ok := err.(*exec.ExitError); ok {
 			r.Exit = ee.ExitCode()
@@ -214,6 +261,9 @@ func (e *Env) RunBin(bin string, worker int, s *scn.Scenario) *Run {
 			r.Exit = -1
 			r.Stderr = append(r.Stderr, Line{T: -1, Text: "spawn: " + err.Error()})
 		}
+	}
+	if cmd.ProcessState != nil && !r.TimedOut {
+		r.CPUMs = float64((cmd.ProcessState.UserTime() + cmd.ProcessState.SystemTime()).Milliseconds())
 	}
 	r.Stdout = deframe(so.Bytes())
 	r.Stderr = append(r.Stderr, deframe(se.Bytes())...)
